@@ -32,6 +32,8 @@ enum Op {
     Finish,
     FinishClear,
     Abandon,
+    AbandonMsg,
+    FinishMsg,
     /// finish_using_style(): the behaviour configured with with_finish() at construction
     FinishStyle,
     UpdateSetPos(u64),
@@ -55,6 +57,8 @@ fn op_class(op: &Op) -> &'static str {
         Op::Finish => "finish",
         Op::FinishClear => "finish_and_clear",
         Op::Abandon => "abandon",
+        Op::AbandonMsg => "abandon_with_message",
+        Op::FinishMsg => "finish_with_message",
         Op::FinishStyle => "finish_using_style",
         Op::UpdateSetPos(_) => "update_set_pos",
         Op::UpdateSetLen(_) => "update_set_len",
@@ -105,7 +109,7 @@ fn sequential_case(seed: u64, idx: u64) -> CaseOut {
             7 => Op::DecLen(rng.u64_biased()),
             8 => Op::UnsetLen,
             9 => rng.pick(&[Op::Reset, Op::Reset, Op::ResetEta, Op::ResetElapsed]).clone(),
-            10 => rng.pick(&[Op::Finish, Op::FinishClear, Op::Abandon, Op::FinishStyle, Op::FinishStyle]).clone(),
+            10 => rng.pick(&[Op::Finish, Op::FinishClear, Op::Abandon, Op::AbandonMsg, Op::FinishMsg, Op::FinishStyle, Op::FinishStyle]).clone(),
             11 => Op::UpdateSetPos(rng.u64_biased()),
             12 => Op::UpdateSetLen(rng.u64_biased()),
             13 => Op::Tick,
@@ -125,13 +129,13 @@ fn sequential_case(seed: u64, idx: u64) -> CaseOut {
                 pos = 0;
                 finished = false;
             }
-            Op::Finish | Op::FinishClear => {
+            Op::Finish | Op::FinishClear | Op::FinishMsg => {
                 if let Some(l) = len {
                     pos = l;
                 }
                 finished = true;
             }
-            Op::Abandon => finished = true,
+            Op::Abandon | Op::AbandonMsg => finished = true,
             Op::FinishStyle => {
                 if completing {
                     if let Some(l) = len {
@@ -169,6 +173,8 @@ fn sequential_case(seed: u64, idx: u64) -> CaseOut {
                 Op::Finish => pb.finish(),
                 Op::FinishClear => pb.finish_and_clear(),
                 Op::Abandon => pb.abandon(),
+                Op::AbandonMsg => pb.abandon_with_message("gave up"),
+                Op::FinishMsg => pb.finish_with_message("done"),
                 Op::FinishStyle => pb.finish_using_style(),
                 Op::UpdateSetPos(p) => pb.update(|s| s.set_pos(*p)),
                 Op::UpdateSetLen(l) => pb.update(|s| s.set_len(*l)),
